@@ -149,6 +149,19 @@ func TypeOf(code string) reflect.Type {
 	panic("universe: unknown type code " + code)
 }
 
+// SliceElem reports the element type code of a slice type code: "[X]" -> X,
+// the named slices NS / NS2 -> A.
+func SliceElem(code string) (string, bool) {
+	if len(code) > 2 && code[0] == '[' && code[len(code)-1] == ']' {
+		return code[1 : len(code)-1], true
+	}
+	switch code {
+	case "NS", "NS2":
+		return "A", true
+	}
+	return "", false
+}
+
 // AsPtr returns a value suitable for dig.As for an interface type code.
 func AsPtr(code string) interface{} {
 	switch code {
